@@ -1,24 +1,57 @@
 SPEC = {
     "corr": [{"kind": "ipfix-cachefile", "quick": 2000, "thorough": 400000},
-             {"kind": "nf9-cachefile", "quick": 2000, "thorough": 400000}],
-    "rule": "per session: 0..140 templates announced by several exporters, the real Dump, reload of the file, EVERY proper prefix of "
-            "the file (all offsets up to 4000 octets, else first/last 1000 + 2000 sampled), 8 byte-/structure-level corruptions "
+             {"kind": "nf9-cachefile", "quick": 2000, "thorough": 400000},
+             {"kind": "jsonvalid", "quick": 20000, "thorough": 2000000}],
+    "rule": "*-cachefile, per session: 0..140 templates announced by several exporters, the real Dump, reload of the file, EVERY proper "
+            "prefix of the file (all offsets up to 4000 octets, else first/last 1000 + 2000 sampled), 8 byte-/structure-level corruptions "
             "(dropped/null/duplicated shards, null or missing maps, wrong ShardNo, wrong types, deleted chunks, bit flips, other JSON "
             "documents), absent / empty / directory paths, each followed by probe decodes; non-trivial = a load or decode that "
-            "returned templates/records; distinct = distinct case line",
-    "assumptions": ["encoding/json (parse and the binding of a document to memCacheDisk) is library code: the harness obtains the parsed "
+            "returned templates/records; distinct = distinct case line. "
+            "jsonvalid (the Lean recogniser Spec.jsonValid against the real json.Valid; the category is part of the output line, so the "
+            "per-kind distribution in the evidence is the input distribution, valid/invalid per category): real dump files with real "
+            "timestamps (dump) and their proper prefixes (prefix: all of them for files up to 700 octets, else first/last 50 + 100 sampled); "
+            "generated JSON texts with whitespace, every number form, every escape, octets >= 0x80, lone surrogates (gen); token-level "
+            "mutations of valid texts and of small dumps: delete / insert / duplicate / swap / replace a token, swapped brackets, "
+            "leading and trailing commas (token); good and broken numbers (-, 1., 1e, 01, .5, 1e+, +1, 0x10, NaN ..., a digit replaced "
+            "by '/' ':' or another number character), alone and inside documents (number); strings with broken escapes (\\u12, \\x, "
+            "\\u with one digit replaced by a neighbour of the hex ranges), raw control characters, stray quotes, unterminated (string); "
+            "trailing garbage, a second top-level value, VT / FF / NBSP / NUL / BOM around the value (tail); empty, whitespace-only, "
+            "single tokens, damaged literals (trivial); nesting 1..400 deep, balanced and unbalanced, one case in 25 at the scanner's "
+            "limit (9999..10002 brackets) (nest); byte flips / deletions / insertions (bytemut); prefixes, suffixes, middles of valid "
+            "texts (cut); random octets and random octets of the JSON alphabet (random); corpus/C11/jsonvalid--boundaries.txt runs first. "
+            "Oracle of jsonvalid (model-independent): whatever json.Valid rejects, json.Unmarshal rejects (into the cache-file type and "
+            "into interface{}) and ipfix.GetCache / netflow9.GetCache load as a usable EMPTY cache; every content loads as a usable cache",
+    "assumptions": ["Spec.jsonValid (Lean port of the scanner of encoding/json) computes json.Valid: sampled by the jsonvalid "
+                    "correspondence, not proved (the Go library is the reference; a disagreement is repaired in the model)",
+                    "json.Unmarshal returns an error, leaving its target untouched, for every input json.Valid rejects (it runs the same "
+                    "scanner over the whole input first: encoding/json/decode.go, func Unmarshal, checkValid): checked on every "
+                    "jsonvalid case by the oracle, modelled as C11.bindFile",
+                    "the reflection-driven binding of an ACCEPTED document to memCacheDisk is library code: the harness obtains the parsed "
                     "document from encoding/json itself through a structurally identical mirror type",
-                    "timestamps are zeroed on both sides before dumps are compared"],
+                    "timestamps are zeroed on both sides before dumps are compared (dump_zero: the compared text is dumpJsonTs with all "
+                    "timestamps 0; the crash-point theorems hold for every timestamp function)"],
 }
 META = {
     "text": "Lean: load_save (for every cache with distinct keys — proved to be every cache reachable by decoding, both protocols — "
             "loading the document Dump writes maps every key to the same template: bucket/sort permutation + map law), load_usable "
             "(whatever the document, GetCache yields the document's cache with 32 non-null shards and maps, or a fresh cache), "
-            "load_subset (only templates of the file), loadDoc_nodup. Crash points: load_prefix_partial — 'a proper prefix is rejected by "
-            "encoding/json' is not proved (library); the correspondence loads every prefix length of every sampled dump with the real "
-            "GetCache. Correspondence also compares the dump octets, the loaded caches and the probe decodes with the model.",
-    "ref": "DESIGN.md §6 C11, §8 F9",
-    "note": "Partial: JSON parsing/binding is trusted library code (crash-point claim rests on the exhaustive-per-file prefix runs). "
+            "load_subset (only templates of the file), loadDoc_nodup. Crash points, now PROVED: Spec.jsonValid is an executable port of "
+            "the state machine of Go's encoding/json scanner (json.Valid, incl. the 10000 nesting limit); json_render_valid (every "
+            "well-formed RFC 8259 tree within the nesting limit renders to an accepted text), json_valid_prefix_rejected (an accepted "
+            "text that begins with a bracket and does not end in whitespace has no accepted proper prefix), json_render_prefix_rejected "
+            "(objects and arrays); dump_is_render (the cache file with arbitrary int64 timestamps is the rendering of a well-formed "
+            "object tree, 8 deep), dump_valid, dump_prefix_rejected (EVERY proper prefix of the file, every cache, every timestamps, "
+            "both protocols), load_prefix (GetCache = scanner first, then binding: a file cut anywhere loads as the fresh cache, "
+            "whatever the binding). Correspondence: jsonvalid ties Spec.jsonValid to the real json.Valid (dumps, all/sampled prefixes, "
+            "structure-aware mutations, random octets) and checks on the real GetCache that rejected contents load as usable empty "
+            "caches; *-cachefile compare the dump octets, the loaded caches and the probe decodes with the model and load every "
+            "prefix length of every sampled dump with the real GetCache.",
+    "ref": "DESIGN.md §6 C11, §8 F9, §13.2",
+    "note": "Trusted for the crash-point claim: that the Lean recogniser equals json.Valid (sampled, 20 k / 2 M cases per run, 0 "
+            "disagreements) and that json.Unmarshal rejects what json.Valid rejects (library source: checkValid before decoding; "
+            "checked per case). The binding of accepted documents to memCacheDisk stays trusted library code. "
             "Trusted: Lean kernel, CacheFile model, harness.",
-    "technique": "Lean 4 proofs about the dump/load model (permutation + map refinement, totality over all documents) + differential correspondence incl. every file prefix",
+    "technique": "Lean 4 proofs about the dump/load model (permutation + map refinement, totality over all documents) and about a "
+                 "ported JSON scanner (tree induction + parse-stack invariant) + differential correspondence incl. every file prefix "
+                 "and json.Valid vs the Lean recogniser",
 }
